@@ -132,7 +132,8 @@ Section S.
   Proof.
     intros Ha. unfold bd_push. destruct (bd_completed b) eqn:Ec; cbn [fst snd].
     - split; [reflexivity|]. intros _. right. exact Ec.
-    - rewrite Ha. cbn [negb fst snd]. split; [reflexivity|]. intros _. left. reflexivity.
+    - rewrite Ha. cbn [negb fst snd].
+      destruct (ro_e oti <? lenN_ payload); cbn [fst snd]; split; try reflexivity; intros _; left; [exact Ha|reflexivity].
   Qed.
 
   (* ---------- the block writer ---------- *)
@@ -1107,6 +1108,7 @@ Section Oracle.
     intros W. unfold bd_push.
     destruct (bd_completed b); [split; [reflexivity|exact W]|].
     destruct (bd_alloc b) eqn:Ea; cbn [negb]; [|rewrite debug_eq; split; [reflexivity|intros Hx; cbn [fst] in Hx; congruence]].
+    destruct (ro_e oti <? lenN_ payload); [split; [reflexivity|exact W]|].
     specialize (W Ea). cbv zeta.
     destruct (ro_fec oti) eqn:Ef.
     - (* No-Code: no external decoder *)
